@@ -19,7 +19,7 @@ template <typename EQ>
 static void one(FILE* f, const char* mode, const vector<int>& a, const vector<int>& b)
 {
   vector<point> lcs; edit_script ses; int ses_len = -1;
-  fprintf(f, "{\"e\":\"Diff\",\"mode\":\"%s\",\"a\":", mode); emit_seq(f, a);
+  fprintf(f, "{\"e\":\"Diff\",\"mode\":\"%s\",\"ov\":0,\"offa\":0,\"offb\":0,\"a\":", mode); emit_seq(f, a);
   fputs(",\"b\":", f); emit_seq(f, b);
   fflush(f);
   compute_diff<vector<int>::const_iterator, EQ>(a.begin(), a.end(), b.begin(), b.end(), lcs, ses, ses_len);
@@ -35,7 +35,7 @@ static void one(FILE* f, const char* mode, const vector<int>& a, const vector<in
     }
   fputs("],\"lcs\":[", f);
   for (size_t i = 0; i < lcs.size(); ++i) fprintf(f, "%s[%d,%d]", i ? "," : "", lcs[i].x(), lcs[i].y());
-  fprintf(f, "],\"seslen\":%d,\"ret\":\"ok\"}\n", ses_len);
+  fprintf(f, "],\"hasLcs\":true,\"seslen\":%d,\"ret\":\"ok\"}\n", ses_len);
 }
 
 static void all_seqs(int alpha, int maxlen, vector<vector<int> >& out)
@@ -49,6 +49,44 @@ static void all_seqs(int alpha, int maxlen, vector<vector<int> >& out)
 	for (int c = 0; c < alpha; ++c) { vector<int> v = out[i]; v.push_back(c); out.push_back(v); }
       start = end;
     }
+}
+
+// The other public overloads (with explicit bases, without ses_len, without the common subsequence), on sequences embedded at
+// offsets offa / offb of larger vectors.  Indices are reported relative to a_begin / b_begin (the library reports them relative
+// to the bases): "ov" names the overload, hasLcs / seslen = -1 say what the overload returns.
+template <typename EQ>
+static void one_ov(FILE* f, const char* mode, int ov, const vector<int>& a, const vector<int>& b, int offa, int offb)
+{
+  vector<int> A(offa, 7), B(offb, 9);           // padding values differ from every letter
+  A.insert(A.end(), a.begin(), a.end()); B.insert(B.end(), b.begin(), b.end());
+  A.push_back(7); B.push_back(9);
+  typedef vector<int>::const_iterator It;
+  It ab = A.begin(), abeg = A.begin() + offa, aend = abeg + a.size(), bb = B.begin(), bbeg = B.begin() + offb, bend = bbeg + b.size();
+  vector<point> lcs; edit_script ses; int ses_len = -1; bool has_lcs = true;
+  fprintf(f, "{\"e\":\"Diff\",\"mode\":\"%s\",\"ov\":%d,\"offa\":%d,\"offb\":%d,\"a\":", mode, ov, offa, offb); emit_seq(f, a);
+  fputs(",\"b\":", f); emit_seq(f, b);
+  fflush(f);
+  switch (ov)
+    {
+    case 1: compute_diff<It, EQ>(ab, abeg, aend, bb, bbeg, bend, lcs, ses, ses_len); break;      // bases, lcs, ses, ses_len
+    case 2: compute_diff<It, EQ>(ab, abeg, aend, bb, bbeg, bend, lcs, ses); break;               // bases, lcs, ses
+    case 3: compute_diff<It, EQ>(ab, abeg, aend, bb, bbeg, bend, ses); has_lcs = false; break;   // bases, ses
+    case 4: compute_diff<It, EQ>(abeg, aend, bbeg, bend, lcs, ses); offa = offb = 0; break;      // no bases, lcs, ses
+    default: compute_diff<It, EQ>(abeg, aend, bbeg, bend, ses); has_lcs = false; offa = offb = 0; break;   // no bases, ses
+    }
+  fputs(",\"del\":[", f);
+  for (size_t i = 0; i < ses.deletions().size(); ++i) fprintf(f, "%s%d", i ? "," : "", ses.deletions()[i].index() - offa);
+  fputs("],\"ins\":[", f);
+  for (size_t i = 0; i < ses.insertions().size(); ++i)
+    {
+      const insertion& in = ses.insertions()[i];
+      fprintf(f, "%s{\"at\":%d,\"idx\":[", i ? "," : "", in.insertion_point_index() + 1 - offa);
+      for (size_t k = 0; k < in.inserted_indexes().size(); ++k) fprintf(f, "%s%d", k ? "," : "", (int) in.inserted_indexes()[k] - offb);
+      fputs("]}", f);
+    }
+  fputs("],\"lcs\":[", f);
+  for (size_t i = 0; i < lcs.size(); ++i) fprintf(f, "%s[%d,%d]", i ? "," : "", lcs[i].x() - offa, lcs[i].y() - offb);
+  fprintf(f, "],\"hasLcs\":%s,\"seslen\":%d,\"ret\":\"ok\"}\n", has_lcs ? "true" : "false", ses_len);
 }
 
 int main(int argc, char** argv)
@@ -72,6 +110,9 @@ int main(int argc, char** argv)
       if (rand() % 2) { b = a; for (int k = rand() % 4; k > 0 && !b.empty(); --k) { size_t p = rand() % b.size(); if (rand() % 2) b.erase(b.begin() + p); else b.insert(b.begin() + p, rand() % al); } }
       else for (int i = 0; i < lb; ++i) b.push_back(rand() % al);
       if (r % 2) one<eq_id>(f, "id", a, b); else one<eq_mod2>(f, "mod2", a, b);
+      // the same pair through one of the other overloads, embedded at pseudo-random offsets
+      int ov = 1 + r % 5, offa = rand() % 4, offb = rand() % 4;
+      if (r % 3) one_ov<eq_id>(f, "id", ov, a, b, offa, offb); else one_ov<eq_mod2>(f, "mod2", ov, a, b, offa, offb);
     }
   fclose(f);
   return 0;
